@@ -767,6 +767,64 @@ pub fn step(snap: &Snapshot, live: &BTreeSet<usize>, rep: &Rep, op: &Op, verbose
     St { snap: after, live: new_live, rep: Arc::new(new_rep), bad, nondet }
 }
 
+/// Validates the state abstraction (and the property for a history shape the state graph merges):
+/// a LayerRef obtained by an EARLIER request of the same build must behave like the latest one.
+/// For every pair of requests (7 x 7 flag/kind combinations) on one layer and every write operation,
+/// writing through the old reference and through the new one must leave identical directories, and the
+/// content-metadata file must still declare the flags of the LATEST request.
+pub fn ref_staleness() -> (u64, Vec<(String, String, serde_json::Value)>) {
+    let mut reqs: Vec<(bool, bool, bool)> = Vec::new(); // (cached, build, launch)
+    for (b, l) in [(false, false), (true, false), (false, true), (true, true)] {
+        reqs.push((true, b, l));
+    }
+    for (b, l) in [(true, false), (false, true), (true, true)] {
+        reqs.push((false, b, l));
+    }
+    let writes = [Op::WMeta { n: 0, k: 0 }, Op::WEnv { n: 0, k: 1 }, Op::WSbom { n: 0, k: 2 }, Op::WExec { n: 0, k: 2 }, Op::Put { n: 0 }];
+    let mk = |r: (bool, bool, bool), existing: bool| -> Op {
+        if r.0 {
+            Op::Cached { n: 0, build: r.1, launch: r.2, m: MKind::Generic, shape: 0, restored: if existing { Some(RDec::Keep) } else { None }, invalid: None, restored2: None }
+        } else {
+            Op::Uncached { n: 0, build: r.1, launch: r.2 }
+        }
+    };
+    let mut viols = Vec::new();
+    let mut n = 0u64;
+    for r1 in &reqs {
+        for r2 in &reqs {
+            for wop in &writes {
+                let mut snaps = Vec::new();
+                let mut outs = Vec::new();
+                for via_old in [true, false] {
+                    let mut w = World::new(&Snapshot::new());
+                    w.exec(&mk(*r1, false));
+                    let old = w.refs.remove(&0);
+                    w.exec(&mk(*r2, true));
+                    if via_old {
+                        if let Some(o) = old {
+                            w.refs.insert(0, o);
+                        }
+                    }
+                    let (out, _) = w.exec(wop);
+                    outs.push(format!("{out:?}"));
+                    snaps.push(w.snap());
+                    n += 1;
+                }
+                let replay = json!({"kind": "ref-staleness", "first": r1, "second": r2, "write": format!("{wop:?}")});
+                let what = format!("requests (cached, build, launch) {r1:?} then {r2:?} for one layer in one build, then {wop:?}");
+                if snaps[0] != snaps[1] || outs[0] != outs[1] {
+                    viols.push(("stale-layer-ref".to_string(), format!("{what}: through the earlier reference -> {} [{}], through the latest -> {} [{}]", outs[0], abstract_layer(&snaps[0], NAMES[0]).describe(), outs[1], abstract_layer(&snaps[1], NAMES[0]).describe()), replay.clone()));
+                }
+                let want = (r2.2, r2.1, r2.0);
+                if abstract_layer(&snaps[0], NAMES[0]).types() != Some(want) {
+                    viols.push(("stale-layer-ref-types".to_string(), format!("{what} through the earlier reference: the file declares {:?}, the latest request asked for (launch, build, cache) = {want:?}", abstract_layer(&snaps[0], NAMES[0]).types()), replay));
+                }
+            }
+        }
+    }
+    (n, viols)
+}
+
 fn op_kind(op: &Op) -> &'static str {
     match op {
         Op::WMeta { .. } => "metadata",
@@ -873,6 +931,11 @@ pub fn run(args: &Args) {
         outcomes.insert(sig.clone());
         rep.violation(&sig, what, json!({"start": snap_json(&cx.state.rep.start), "ops": cx.state.rep.ops, "path_from_seed": cx.path}));
     }
+    let (stale_runs, stale_viols) = ref_staleness();
+    for (sig, what, rp) in stale_viols {
+        rep.violation(&sig, what, rp);
+    }
+    rep.cov("ref_staleness_runs", stale_runs);
     rep.cov("states", r.states);
     rep.cov("transitions", r.transitions);
     rep.cov("traces_validated_against_impl", r.transitions);
@@ -890,7 +953,7 @@ pub fn run(args: &Args) {
     rep.sample(json!({"deepest_path": r.deepest_path}));
     rep.sample(json!({"seed": seed_ops()[3].0, "ops": seed_ops()[3].1}));
     rep.assume("simulated lifecycle restore: cache=true keeps dir+toml(without types)+SBOMs; launch-only keeps toml only; everything else vanishes");
-    rep.assume("a LayerRef carries no mutable state (name, layers dir), so a state is (directory snapshot, set of layers with a live ref); each transition re-creates the refs by replaying the current build's operations and asserts the replay reproduces the state");
+    rep.assume("a LayerRef carries no mutable state (name, layers dir), so a state is (directory snapshot, set of layers with a live ref) - validated on every run by the ref-staleness differential (7x7 request pairs x 5 writes through the earlier and the latest reference); each transition re-creates the refs by replaying the current build's operations and asserts the replay reproduces the state");
     rep.finish();
 }
 
@@ -901,6 +964,13 @@ fn snap_json(s: &Snapshot) -> serde_json::Value {
 pub fn replay(path: &str, rep: &mut Reporter) {
     let doc: serde_json::Value = serde_json::from_str(&std::fs::read_to_string(path).expect("replay file")).expect("json");
     let r = &doc["replay"];
+    if r["kind"] == "ref-staleness" {
+        for (sig, what, _) in ref_staleness().1 {
+            println!("DIFFERENCE: {what}");
+            rep.violation(&sig, what, json!({}));
+        }
+        return;
+    }
     let start: Snapshot = serde_json::from_value(r["start"].clone()).unwrap_or_default();
     let ops: Vec<Op> = serde_json::from_value(r["ops"].clone()).expect("ops");
     println!("start: {}", start.to_json());
